@@ -131,6 +131,15 @@ def run(ctx):
     for s, r in zip(scripts, reals):
         oracle(ctx, s, r)
         W.refused_leaves_no_trace(ctx, s, r, "c18")
+    # fan-out: one sender, several recipients tuned to it, each with its own drop counter / mute flag / header version - every
+    # recipient must see exactly ITS pattern (generator and routing oracle shared with C02: the oracle applies each recipient's
+    # own counter, period and mute state per burst)
+    from . import C02 as _C02
+    fan = [_C02.fanout_script(rng) for _ in range(40 if ctx.tier == "quick" else 1500)]
+    freals = SC.run_scripts(ctx, "fanout-session", fan)
+    for s, r in zip(fan, freals):
+        _C02.oracle(ctx, s, r)
+        W.refused_leaves_no_trace(ctx, s, r, "c18")
     ctx.sample([SC.describe(o) for o in scripts[0][1][:14]])
     ctx.count("operations", sum(len(s[1]) for s in scripts))
     ctx.extra["rule"] = ("sessions of BTS+MS tuned to each other: FAKE_DROP n [p] (n in -2..8, p in -1..13), RFMUTE, SETFORMAT 0/1 on either side interleaved with bursts and ticks "
